@@ -97,7 +97,7 @@ class BuiltStat:
                 init = it["init"] if tr else it["lattice"][0]
                 init = init if isinstance(init, (int, float)) else np.asarray(init, dtype=np.float64)
                 if it.get("wrap") == "value":
-                    node = lsl.Value(init, _name=name)
+                    node = lsl.Value(init, _name=it.get("node_name", name))
                     self.objs[name] = node
                     to_add.append(node)
                     continue
@@ -219,7 +219,7 @@ class BuiltStat:
         out = {}
         for a in self.assignable:
             if a["via"] == "node":
-                out[a["name"]] = np.asarray(self.model.nodes[a["name"]].value, dtype=np.float64)
+                out[a["name"]] = np.asarray(self.model.nodes[a["target"]].value, dtype=np.float64)
             else:
-                out[a["name"]] = np.asarray(self.model.vars[a["name"]].value, dtype=np.float64)
+                out[a["name"]] = np.asarray(self.model.vars[a["target"]].value, dtype=np.float64)
         return out
